@@ -57,6 +57,10 @@ int libwifi_parse_probe_req(struct libwifi_sta *sta, struct libwifi_frame *frame
     sta->tags.length = (frame->len - frame->header_len);
     const unsigned char *tagged_params = frame->body;
     sta->tags.parameters = malloc(sta->tags.length);
+    if (sta->tags.parameters == NULL) {
+        sta->tags.length = 0;
+        return -ENOMEM;
+    }
     memcpy(sta->tags.parameters, tagged_params, sta->tags.length);
 
     struct libwifi_tag_iterator it;
